@@ -175,7 +175,8 @@ func ReadIgnoreAnnotations(cfg *config.Config, pass *analysis.Pass) *util.Ignore
 // Example: var x int // @ignore CODE1
 func findInlineNode(file *ast.File, comment *ast.Comment, fset *token.FileSet) (start token.Pos, end token.Pos, found bool) {
 	commentPos := comment.Pos()
-	commentLine := fset.Position(commentPos).Line
+	// Physical lines: //line directives must not shift the line whose start is looked up below
+	commentLine := fset.PositionFor(commentPos, false).Line
 
 	// Binary search to find the declaration containing the comment
 	idx := sort.Search(len(file.Decls), func(i int) bool {
@@ -207,7 +208,7 @@ func findInlineNode(file *ast.File, comment *ast.Comment, fset *token.FileSet) (
 			return false
 		}
 
-		nodeEndLine := fset.Position(n.End()).Line
+		nodeEndLine := fset.PositionFor(n.End(), false).Line
 
 		// Check if this node ends on the same line as the comment
 		if nodeEndLine == commentLine {
